@@ -29,7 +29,7 @@ fn exec_rs(toks: &[&str]) -> Result<String, String> {
     let n: usize = parse(kv(toks[2], "n")?)?;
     let f: usize = parse(kv(toks[3], "f")?)?;
     let bytes = unhex(toks[4])?;
-    if k == 0 || k > 64 || n == 0 || n > 100_000 || f > 1 || bytes.len() != (n + 7) / 8 {
+    if k == 0 || k > 1000 || n == 0 || n > 100_000 || f > 1 || bytes.len() != (n + 7) / 8 {
         return Err("shape".into());
     }
     // unused bits of the last byte must be zero in the *input* (canonical form)
@@ -179,7 +179,7 @@ fn pack(bits: &[bool]) -> Vec<u8> {
 }
 
 fn gen_rs(rng: &mut Rng, small_only: bool) -> String {
-    let k = 1 + rng.below(4);
+    let k = if rng.chance(1, 6) { *rng.pick(&[5usize, 8, 16, 33, 100]) } else { 1 + rng.below(4) };
     let s = 32 * k;
     let n = match rng.below(if small_only { 6 } else { 10 }) {
         0 => 1 + rng.below(16),
@@ -190,7 +190,7 @@ fn gen_rs(rng: &mut Rng, small_only: bool) -> String {
         }
         4 | 5 => 1 + rng.below(300),
         6 => {
-            let m = 1 + rng.below(3000 / s);
+            let m = 1 + rng.below((3000 / s).max(1));
             (s * m + rng.below(19)).saturating_sub(9).max(1)
         }
         _ => 1 + rng.below(3000),
